@@ -30,7 +30,9 @@ fn gen_rule(rng: &mut Rng, id: &str, version: usize) -> Value {
     let status: Value = match rng.below(8) { 0 => Value::Null, 1 => json!(0), 2 | 3 => json!(301), 4 => json!(302), 5 => json!(307), 6 => json!(308), _ => json!(410) };
     let target: Value = match rng.below(9) { 8 => json!("__SELF__"), 0 => Value::Null, 1 => json!("https://example.org/b"), 2 => json!("http://other.net/z"), 3 => json!("c"), 4 => json!("/a?x=1"), _ => json!(*rng.pick(PATHS)) };
     let codes: Value = match rng.below(4) { 0 => json!([404]), 1 => json!([200, 301]), _ => Value::Null };
-    let hf: Value = match rng.below(4) { 0 => json!([{"action": "add", "header": "X-V", "value": format!("{}v{}", id, version), "id": *rng.pick(UNITS), "target_hash": "h1"}]),
+    let hf: Value = match rng.below(6) { 4 => json!([{"action": "add", "header": "Content-Type", "value": *rng.pick(&["text/plain", "text/html"]), "id": *rng.pick(UNITS), "target_hash": "h3"}]),
+                                         5 => json!([{"action": "override", "header": "Content-Encoding", "value": *rng.pick(&["gzip", "zstd"]), "id": *rng.pick(UNITS), "target_hash": "h4"}]),
+                                         0 => json!([{"action": "add", "header": "X-V", "value": format!("{}v{}", id, version), "id": *rng.pick(UNITS), "target_hash": "h1"}]),
                                          1 => json!([{"action": "override", "header": "Location", "value": *rng.pick(PATHS), "id": *rng.pick(UNITS), "target_hash": "h2"}]), _ => Value::Null };
     let bf: Value = match rng.below(5) { 0 => json!([{"action": "append_text", "content": format!("[{}]", id), "id": *rng.pick(UNITS), "target_hash": "b1"}]),
                                          1 => json!([{"action": "append_child", "value": format!("<i>{}</i>", id), "element_tree": ["html", "body"], "css_selector": null, "id": *rng.pick(UNITS), "target_hash": "b2"}]), _ => Value::Null };
